@@ -44,7 +44,8 @@ def stop_set(fx):
     st = set(p_gate.identity_test_fns(fx))
     # decision functions (`needs_backup`, `try_reflink` whatever they are called): they branch on the mode and
     # answer with a bool; a function that merely reads the mode among other work (a constructor) is a helper
-    for fld in ("backup", "reflink"):
+    # (the backup decision is *not* a boundary: its rules assume a mode and prune the inlined code instead)
+    for fld in ("reflink",):
         for p_ in _mode_fns(fx, fld):
             if _returns_bool(fx.fns[p_]):
                 st.add(p_)
